@@ -345,7 +345,13 @@ def run_family(ctx, prop):
     allh = hs + hs2
     # 4. validation
     bad, div, done = validate(ctx, allh, "main")
-    nself = selftest(ctx, allh, mons)
+    # the binding self-test needs accepted histories to corrupt; on a tree that breaks the property it may find none
+    # that behave: its verdict is looked at after the violations have been registered
+    nself, self_err = 0, None
+    try:
+        nself = selftest(ctx, allh, mons)
+    except Infra as e:
+        self_err = e
     # 3b/4b. the same histories through the real Auditd.Read (parser, reassembler, coalescer, call-back): L2
     l2stats, l2n = None, 0
     if prop in L2_PROPS:
@@ -417,6 +423,10 @@ def run_family(ctx, prop):
                       {"kind": "history", "level": level, "monitor": what, "history": [
                           {k: v for k, v in r.items() if k not in ("outs", "st", "err", "errs", "mut")}
                           for r in recs[1:]], "observed": recs[1:]})
+    if self_err is not None:
+        if not ctx.violations:
+            raise self_err
+        ctx.notes.append("binding self-test not conclusive on this tree: %s" % self_err)
     if other:
         ctx.notes.append("monitors of other properties fired on these traces: %s" % ", ".join(other))
     if div:
